@@ -163,7 +163,9 @@ impl<M: Manager> UnreadyObject<'_, M> {
 impl<M: Manager> Drop for UnreadyObject<'_, M> {
     fn drop(&mut self) {
         if let Some(mut inner) = self.inner.take() {
+            verif_point!("unready.lock");
             self.pool.slots.lock().unwrap().size -= 1;
+            verif_point!("unready.detach");
             self.pool.manager.detach(&mut inner.obj);
         }
     }
@@ -323,6 +325,9 @@ impl<M: Manager, W: From<Object<M>>> Pool<M, W> {
         let users_guard = DropGuard(|| {
             let _ = self.inner.users.fetch_sub(1, Ordering::Relaxed);
         });
+        #[cfg(deadpool_verif)]
+        let verif_users = crate::verif::DropPoint("drop.users");
+        verif_point!("get.acquire");
 
         let non_blocking = match timeouts.wait {
             Some(t) => t.as_nanos() == 0,
@@ -349,8 +354,11 @@ impl<M: Manager, W: From<Object<M>>> Pool<M, W> {
             )
             .await?
         };
+        #[cfg(deadpool_verif)]
+        let verif_permit = crate::verif::DropPoint("drop.permit");
 
         let inner_obj = loop {
+            verif_point!("get.pop");
             let inner_obj = match self.inner.config.queue_mode {
                 QueueMode::Fifo => self.inner.slots.lock().unwrap().vec.pop_front(),
                 QueueMode::Lifo => self.inner.slots.lock().unwrap().vec.pop_back(),
@@ -365,6 +373,11 @@ impl<M: Manager, W: From<Object<M>>> Pool<M, W> {
             }
         };
 
+        #[cfg(deadpool_verif)]
+        {
+            verif_permit.disarm();
+            verif_users.disarm();
+        }
         users_guard.disarm();
         permit.forget();
 
@@ -439,6 +452,7 @@ impl<M: Manager, W: From<Object<M>>> Pool<M, W> {
             pool: &self.inner,
         };
 
+        verif_point!("create.size");
         self.inner.slots.lock().unwrap().size += 1;
 
         // Apply post_create hooks
@@ -466,11 +480,13 @@ impl<M: Manager, W: From<Object<M>>> Pool<M, W> {
         if self.inner.semaphore.is_closed() {
             return;
         }
+        verif_point!("resize.lock");
         let mut slots = self.inner.slots.lock().unwrap();
         let old_max_size = slots.max_size;
         slots.max_size = max_size;
         // shrink pool
         if max_size < old_max_size {
+            verif_point!("resize.shrink");
             while slots.size > slots.max_size {
                 if let Ok(permit) = self.inner.semaphore.try_acquire() {
                     permit.forget();
@@ -480,6 +496,7 @@ impl<M: Manager, W: From<Object<M>>> Pool<M, W> {
                 } else {
                     break;
                 }
+                verif_point!("resize.shrink");
             }
             // Create a new VecDeque with a smaller capacity
             let mut vec = VecDeque::with_capacity(max_size);
@@ -492,6 +509,7 @@ impl<M: Manager, W: From<Object<M>>> Pool<M, W> {
         if max_size > old_max_size {
             let additional = slots.max_size - old_max_size;
             slots.vec.reserve_exact(additional);
+            verif_point!("resize.grow");
             self.inner.semaphore.add_permits(additional);
         }
     }
@@ -558,6 +576,7 @@ impl<M: Manager, W: From<Object<M>>> Pool<M, W> {
     /// This operation resizes the pool to 0.
     pub fn close(&self) {
         self.resize(0);
+        verif_point!("close.sem");
         self.inner.semaphore.close();
     }
 
@@ -588,6 +607,31 @@ impl<M: Manager, W: From<Object<M>>> Pool<M, W> {
     #[must_use]
     pub fn manager(&self) -> &M {
         &self.inner.manager
+    }
+
+    /// Read-only snapshot of the pool internals. The idle objects are
+    /// visited front to back. Never blocks: if the slots mutex is held the
+    /// `slots` field of the snapshot is `None` and nothing is visited.
+    #[cfg(deadpool_verif)]
+    pub fn verif_snapshot(
+        &self,
+        mut visit: impl FnMut(&M::Type, &Metrics),
+    ) -> crate::verif::ManagedSnapshot {
+        let slots = match self.inner.slots.try_lock() {
+            Ok(slots) => {
+                for obj in slots.vec.iter() {
+                    visit(&obj.obj, &obj.metrics);
+                }
+                Some((slots.size, slots.max_size, slots.vec.len()))
+            }
+            Err(_) => None,
+        };
+        crate::verif::ManagedSnapshot {
+            permits: self.inner.semaphore.available_permits(),
+            closed: self.inner.semaphore.is_closed(),
+            users: self.inner.users.load(Ordering::Relaxed),
+            slots,
+        }
     }
 }
 
@@ -633,26 +677,32 @@ where
 impl<M: Manager> PoolInner<M> {
     fn return_object(&self, mut inner: ObjectInner<M>) {
         let _ = self.users.fetch_sub(1, Ordering::Relaxed);
+        verif_point!("ret.lock");
         let mut slots = self.slots.lock().unwrap();
         if slots.size <= slots.max_size {
             slots.vec.push_back(inner);
             drop(slots);
+            verif_point!("ret.add_permits");
             self.semaphore.add_permits(1);
         } else {
             slots.size -= 1;
             drop(slots);
+            verif_point!("ret.detach");
             self.manager.detach(&mut inner.obj);
         }
     }
     fn detach_object(&self, obj: &mut M::Type) {
         let _ = self.users.fetch_sub(1, Ordering::Relaxed);
+        verif_point!("take.lock");
         let mut slots = self.slots.lock().unwrap();
         let add_permits = slots.size <= slots.max_size;
         slots.size -= 1;
         drop(slots);
         if add_permits {
+            verif_point!("take.add_permits");
             self.semaphore.add_permits(1);
         }
+        verif_point!("take.detach");
         self.manager.detach(obj);
     }
 }
